@@ -199,6 +199,10 @@ func (w *world) step(rng *rand.Rand, op *model.Op) (ok bool) {
 			}
 		}
 		got := ociauth.ScopeFromContext(c.Ctx)
+		if txt := got.String(); !wantScope.IsUnlimited() && !ociauth.ParseScope(txt).Equal(wantScope) {
+			// the text is what goes to a token server: it has to say the same as the value
+			run.Violation(fmt.Sprintf("scope-text-not-rewritten/%s", c.Method), fmt.Sprintf("%s with caller scope %s: backend %s saw a scope that prints as %q, which reads back as %q; want %q", op, scopeDesc, c.Method, txt, ociauth.ParseScope(txt).Canonical().String(), wantScope.String()), witness())
+		}
 		if !got.Equal(wantScope) {
 			run.Violation(fmt.Sprintf("scope-not-rewritten/%s", c.Method), fmt.Sprintf("%s with caller scope %s: backend %s saw scope %q, want %q", op, scopeDesc, c.Method, got.String(), wantScope.String()), witness())
 		}
@@ -304,7 +308,7 @@ func concurrentCallers(run *evid.Run, idx int) {
 		mu.Lock()
 		defer mu.Unlock()
 		nCalls++
-		if !got.Equal(want) {
+		if !got.Equal(want) || !ociauth.ParseScope(got.String()).Equal(want) {
 			nWrong++
 			if len(wrong) < 5 {
 				wrong = append(wrong, fmt.Sprintf("%s(%q) saw scope %q, want %q", method, repo, got.String(), want.String()))
